@@ -30,6 +30,11 @@ class Pat:
             ih = inline_call(ctx, e2)
             if ih is not None:
                 alts.append(ih)
+                t0 = strip(ih[0])
+                if isinstance(t0, dict) and t0.get('k') == 'call' and t0['f'].get('k') == 'path' and \
+                        t0['f'].get('name') in ('Ok', 'Some') and len(t0['args']) == 1:
+                    # `helper(..)?` where the helper ends in `Ok(value)`: the value
+                    alts.append((t0['args'][0], ih[1]))
         elif e2.get('k') == 'field':
             # `v.f` where v is (bound to / returned as) a struct literal: the initialiser of f
             pf = project_field(ctx, e2)
